@@ -34,8 +34,11 @@ var handlerNames = []string{"nano", "text", "json"}
 
 func newLogger(kind int, w *sink, level int) *logger.Logger {
 	lv := logger.LevelInfo
-	if level == 1 {
+	switch level {
+	case 1:
 		lv = logger.LevelError
+	case 2:
+		lv = logger.LevelFatal
 	}
 	opts := logger.NewOptions(lv, false, false)
 	switch kind {
@@ -267,7 +270,7 @@ func (wd *world) serve(rs *reqSpec) (code int, escaped any) {
 
 // judge checks the records belonging to one request (selected by uri).
 func (wd *world) judge(rs *reqSpec, code int, escaped any, chunks []string) string {
-	desc := fmt.Sprintf("%s handler, threshold %s, %s %s, behaviour %s", handlerNames[wd.kind], []string{"Info", "Error"}[wd.level], rs.method, rs.uri, rs.b)
+	desc := fmt.Sprintf("%s handler, threshold %s, %s %s, behaviour %s", handlerNames[wd.kind], []string{"Info", "Error", "Fatal"}[wd.level], rs.method, rs.uri, rs.b)
 	if escaped != nil {
 		return fmt.Sprintf("C15: panic escaped ServeHTTP (%v) [%s]", escaped, desc)
 	}
@@ -296,7 +299,7 @@ func (wd *world) judge(rs *reqSpec, code int, escaped any, chunks []string) stri
 		}
 	}
 	wantInfo := 1
-	if wd.level == 1 {
+	if wd.level >= 1 {
 		wantInfo = 0
 	}
 	if len(beg) != wantInfo || len(end) != wantInfo {
@@ -314,7 +317,7 @@ func (wd *world) judge(rs *reqSpec, code int, escaped any, chunks []string) stri
 		return fmt.Sprintf("C15: REQ_END code=%s but the client received %d [%s]", end[0].fields["code"], code, desc)
 	}
 	wantErr := 0
-	if rs.b.point != pNone {
+	if rs.b.point != pNone && wd.level <= 1 {
 		wantErr = 1
 	}
 	if len(errs) != wantErr {
@@ -466,7 +469,7 @@ func main() {
 	evals := 0
 	distinct := map[string]bool{}
 	for kind := 0; kind < 3; kind++ {
-		for level := 0; level < 2; level++ {
+		for level := 0; level < 3; level++ {
 			wd := newWorld(kind, level)
 			n := 0
 			for _, b := range bs {
